@@ -184,11 +184,12 @@ class FakePool:
     With jobs == 1 tasks are executed in submission order.
     """
 
-    def __init__(self, jobs, decider, prefetch=4):
+    def __init__(self, jobs, decider, prefetch=4, on_step=None):
         self.jobs = jobs
         self.d = decider
         self.prefetch = prefetch
         self.trace = []
+        self.on_step = on_step      # called before every scheduler step
 
     def __enter__(self):
         return self
@@ -222,6 +223,8 @@ class FakePool:
                 return
             # default (lazy) order: deliver > exec > pull
             step = opts[self.d.choice(len(opts))]
+            if self.on_step is not None:
+                self.on_step(step)
             if step == 'pull':
                 pull()
             elif step == 'exec':
@@ -246,7 +249,8 @@ class FakeMP:
         self.pools = []
 
     def Pool(self, jobs=None):
-        p = FakePool(jobs or 1, self.d, self.prefetch)
+        p = FakePool(jobs or 1, self.d, self.prefetch,
+                     getattr(self, 'on_step', None))
         self.pools.append(p)
         return p
 
